@@ -22,6 +22,7 @@ def errName : Err → String
   | .extra => "extra" | .arrayAlready => "array-already" | .illegal => "illegal" | .stop => "stop"
   | .lex .missingQuote => "lex-quote" | .lex .missingRp => "lex-rp" | .lex .missingLp => "lex-lp"
   | .lex .hexNumber => "unsupported:hex" | .notSaved => "not-saved" | .unsupported w => "unsupported:" ++ w
+  | .lineTooLarge => "line-too-large"
   | .resource => "resource" | .fuel => "valdepth"
 
 def showVal : Val Float → String
